@@ -680,6 +680,11 @@ def oracle(c):
         for key in 'uv':
             if [crv_data(x) for x in ex[key]] != ex_curves_py(S, key):
                 return "extract_curves['%s'] is not the family of net rows [cpts[v + size_v*u]]" % key
+        # one family only (documented keyword arguments extract_u / extract_v): the requested family, the other one empty
+        for kw, key, other in ((dict(extract_v=False), 'u', 'v'), (dict(extract_u=False), 'v', 'u')):
+            one = construct.extract_curves(mk_surf(S, rat), **kw)
+            if [crv_data(x) for x in one[key]] != ex_curves_py(S, key) or len(one[other]) != 0:
+                return "extract_curves(%s) does not return exactly the '%s' family" % (", ".join("%s=%s" % kv_ for kv_ in kw.items()), key)
         # boundary rows are the boundary iso-curves (clamped knots)
         for a, _ in d.get('prm', []):
             if _ev(ex['v'][0], (a,)) != _ev(o, (F(0), a)) or _ev(ex['v'][-1], (a,)) != _ev(o, (F(1), a)):
